@@ -1979,6 +1979,11 @@ theorem migrate_preserves_formats (p : ProvCfg) (hv : ∀ n ∈ p.formats, linke
   · have : p.formats.map lower ≠ [] := by simpa using he
     simp only [he, this, if_false, List.any_map, Function.comp_def, foldEq_lower_left]
 
+/-- the attestation roots are carried through the admin database unchanged: the pool
+    device-attest-01 verifies against after migration is the configured one, never the empty pool
+    (which for step / apple means the built-in vendor root) -/
+theorem migrate_preserves_roots (p : ProvCfg) : (migrate p).roots = p.roots := rfl
+
 /-- the clause one would want: the challenge types a provisioner offers are the same after the
     configuration went through the admin database -/
 def MigrationKeepsChallenges : Prop :=
